@@ -64,11 +64,12 @@ func verif_contract_arp_spoofer_Handler_RequestRaw(h *Handler, dst net.HardwareA
 // and either (i) the forged "router IP is at our MAC" for a requester that is in
 // the hunt list and asked for the router, or (ii) a probe-reject.
 //
-//verif:props C08 C13
+//verif:props C08 C10 C13
 //verif:timeout 150s
 func verif_lemma_dispatch_arp(h *Handler, frame packet.Frame) {
 	vRequires(spec_handler_ok(h) && packet.VerifSpecFrameARP(frame))
 	vCanary()
+	vBorrowed(frame.Ether()) // C10: nothing the handler keeps is a view of the packet
 	n0 := vWireCount()
 	arp := packet.ARP(frame.Payload())
 	_, hunted := h.huntList[string(arp[8:14])]
